@@ -31,7 +31,7 @@ theorem readFruDataV_exact (cfg : Cfg) (hcfg : cfg.ok = true) (d : FruDev) (hd :
   | none =>
     simp only [Option.getD_none] at hr ⊢
     have hc := (Cfg.ok_iff cfg).mp hcfg
-    have hinfo := respond_info d id c hid hg
+    have hinfo := respond_info d id c hid hg h64
     have hsz : c.length % 256 + 256 * (c.length / 256 % 256) = c.length := off_bytes _ (by omega)
     have := readLoop_exact cfg hcfg d hd id c hid hg c.length (Nat.le_refl _) (by omega)
       (c.length + cfg.initReq + 1)
